@@ -49,6 +49,17 @@ CHECKS = {
             "Other stanzas sent down (key upload/fetch) are allowed; the picture notification that is neither set nor delete is "
             "outside the guarantee.",
             "5/C07"),
+    "C08": ("exploration",
+            "model-based generated histories (scripts of request / reply / replay / unknown-id / non-reply operations) "
+            "against a dict model of the registries, plus a metamorphic fresh-stack comparison for non-replies",
+            "Histories over 18 application request kinds and the library-internal key-fetch / group-info requests run against "
+            "the real protocol layer set (with and without the encryption layers) under an interface-layer application; after "
+            "every step the callback log must equal the model's (right callback, once, original request attached, nothing "
+            "delivered twice), non-replies must behave exactly as on a fresh identical stack, internal continuations happen once, "
+            "and all request ids of a history are distinct.",
+            "Result stanzas follow the catalogued reply shapes; key bundles for internal requests are built by the harness from "
+            "real key material.",
+            "5/C08"),
     "C09": ("exploration",
             "Hypothesis-generated stanzas per documented shape (entity catalogue) with a stanza->entity->stanza round-trip "
             "oracle, and generated constructor arguments pushed through the real codec",
